@@ -1274,3 +1274,23 @@ func init() {
 		}
 	}
 }
+
+func init() {
+	extraDumps["usedfacts"] = func(w *World, args []string) {
+		for _, k := range w.KindsL {
+			if k.Len == nil || k.Marshal == nil {
+				continue
+			}
+			sv := w.compareSize(k)
+			var fs []string
+			for _, u := range sv.UsedBySize {
+				if strings.HasPrefix(u, "len(") || strings.HasPrefix(u, "val(") {
+					fs = append(fs, u)
+				}
+			}
+			if len(fs) > 0 {
+				fmt.Printf("%s: %s\n", k.Name, strings.Join(fs, "; "))
+			}
+		}
+	}
+}
